@@ -105,7 +105,50 @@ TOKEN_IMPLS = ["<pasfmt_core::lang::Token as pasfmt_core::lang::TokenData>::get_
                "<pasfmt_core::lang::RawToken as pasfmt_core::lang::TokenData>::get_content", "<pasfmt_core::lang::RawToken as pasfmt_core::lang::TokenData>::get_leading_whitespace"]
 
 
+GIVE_UP_SITES = {
+    # (function, variant, innermost guard) -> why the wrapper may leave the line as it was written there
+    ("find_optimal_solution", "NoSolutionFound", "get_formatting_invariant"): "the required start of the line contradicts a hard rule for its first token (e.g. a line break is required where none may be)",
+    ("find_optimal_solution", "IterationLimitReached", "Gt(iteration_count,iteration_max)"): "documented search budget (iteration_max)",
+    ("find_optimal_solution", "NoSolutionFound", "pop:None"): "the search space is exhausted",
+}
+
+
+def wrapper_gives_up_only_at_reviewed_sites(prog, rep, R):
+    """C06.i — a line the wrapper gives up on keeps the line breaks it had in the input (only its line-start blanks are removed), so
+    every way of giving up is a way for the input's layout to reach the output.  The sites that construct a FormattingSolutionError
+    form a closed, reviewed inventory keyed by (function, variant, innermost guard); a new site (a depth guard, a size guard, a
+    time budget ..) has to be reviewed here: it makes the output of the lines it hits depend on how they were wrapped in the input."""
+    from panic import dominating_conditions
+    found = {}
+    for b in prog.bodies.values():
+        if not b.crate.startswith("pasfmt_core"):
+            continue
+        for bb, i, s in b.stmts():
+            if s["k"] == "assign" and s["rv"]["k"] == "aggregate" and s["rv"].get("agg") == "adt" and norm(s["rv"].get("adt", "")).endswith("optimising_line_formatter::FormattingSolutionError"):
+                guard = "?"
+                cmps = [c for c in dominating_conditions(b, bb) if c[0] == "cmp"]
+                facts = [f for f in dominating_variant_facts(prog, b, bb)]
+                if cmps and cmps[-1][5] in b.dom.get(bb, ()) and (not facts or True):
+                    c = cmps[-1]
+                    guard = "%s(%s,%s)" % (c[1], canon(b, c[2]).split(".")[-1].replace("var:", ""), canon(b, c[3]).split(".")[-1].replace("var:", ""))
+                    if c[4] is False:
+                        guard = "!" + guard
+                if guard == "?" or not cmps:
+                    if facts:
+                        f = facts[-1]
+                        guard = "get_formatting_invariant" if "get_formatting_invariant(" in f[0] else ("pop:%s" % f[2][0] if f[0].startswith("pop(") else "%s:%s" % (f[0][:40], ",".join(f[2])))
+                # the comparison counts only if it is nearer than the last variant fact
+                key = (b.npath.split("::")[-1] if "{closure" not in b.npath else short(b.npath), s["rv"]["variant"], guard)
+                found.setdefault(key, []).append("%s:%d" % (b.file, abs(s.get("line", 0))))
+    for key, wh in sorted(found.items()):
+        rep.check(key in GIVE_UP_SITES, R, "give-up-site:%s|%s|%s" % key,
+                  "the wrapper gives up on a line (%s) in %s under `%s`, which is not a reviewed give-up site: the line then keeps the line breaks of the input, so its output depends on how it "
+                  "was wrapped there" % (key[1], key[0], key[2]), where=wh[0], instance={"function": key[0], "error": key[1], "guard": key[2], "reason": GIVE_UP_SITES.get(key, "UNREVIEWED")})
+    rep.floor(R, "sites that construct a FormattingSolutionError", sum(len(v) for v in found.values()), 3)
+
+
 def check_c06(prog, rep, tier, cfg):
+    wrapper_gives_up_only_at_reviewed_sites(prog, rep, "C06.i")
     R = "C06.a"
     ws_callers = set()
     for nm in ("get_leading_whitespace",):
